@@ -100,9 +100,13 @@ Definition trace_corr (c : case) : Z :=
 Definition cfg_get (cfg : list Z) (i : nat) : Z := nth i cfg 0.
 
 (* is [d] the slice of [stream] at offset [off]? *)
+(* the bounds are tested first and inside an [if]: vm_compute evaluates the arguments of [andb]
+   eagerly, and [Z.to_nat] of an offset near 2^32 (a segment numbered before the start of the stream)
+   would build a unary number of that size *)
 Definition is_slice (stream d : list Z) (off : Z) : bool :=
-  (0 <=? off) && zlist_eqb (firstn (length d) (skipn (Z.to_nat off) stream)) d
-  && (Z.of_nat (length d) + off <=? Z.of_nat (length stream)).
+  if (0 <=? off) && (Z.of_nat (length d) + off <=? Z.of_nat (length stream))
+  then zlist_eqb (firstn (length d) (skipn (Z.to_nat off) stream)) d
+  else false.
 
 Fixpoint is_prefix (a b : list Z) : bool :=
   match a, b with
@@ -118,7 +122,7 @@ Definition reads_of (steps : list obs) : list Z :=
 (* bytes the application's writes were accepted for, in order *)
 Definition writes_of (steps : list obs) : list Z :=
   flat_map (fun o => match o_ev o, o_res o with
-                     | EWrite d, RCount n => firstn (Z.to_nat n) d
+                     | EWrite d, RCount n => if n <=? Z.of_nat (length d) then firstn (Z.to_nat n) d else d
                      | _, _ => [] end) steps.
 
 Definition frames_of (steps : list obs) : list frame := flat_map o_frames steps.
